@@ -98,8 +98,10 @@ class CoverageSaveVisitor(ModelVisitor):
             # TODO: obtain at_least from coverpoint and set on cp_scope
             # TODO: obtain goal from coverpoint and set on cp_scope
             # TODO: obtain comment from coverpoint and set on cp_scope
+            # Instance names only need to be unique within their type
+            self.cg_name_s = set()
             self.active_scope_s.append(cg_inst.createCovergroup(
-                cg.typename,
+                cg_name,
                 inst_location,
                 weight, # weight
                 UCIS_OTHER)) # Source type
